@@ -159,7 +159,7 @@ def handleServe : SExp → Option String
               | [real] =>
                 match decObs real with
                 | some o => specLine "C06" (Spec.c06Holds implEnv cfg entry sreq o) ++ specLine "C07" (Spec.c07Holds implEnv cfg entry sreq o)
-                    ++ specLine "C10" (Spec.c10Holds implEnv cfg entry sreq o)
+                    ++ specLine "C10" (Spec.c10Holds implEnv cfg entry sreq o) ++ specLine "C13" (Spec.c13Holds o)
                     ++ specLine "F09" (Spec.f09Class implEnv cfg entry sreq) ++ specLine "F18" (Spec.f18Class implEnv cfg entry sreq)
                 | none => " (spec BADOBS 0)"
               | _ => ""
